@@ -7,7 +7,7 @@ namespace MlModel.Tree
 /-! ## `get` equations -/
 
 def PKey.isPlain : PKey → Bool
-  | .str _ | .idx _ | .int _ => true
+  | .str _ | .idx _ | .int _ | .obj _ => true
   | _ => false
 
 theorem PKey.isPlain_ne_self {k : PKey} (h : k.isPlain) : k ≠ .self := by cases k <;> simp_all [PKey.isPlain]
@@ -90,6 +90,16 @@ theorem defaultTree_step {h : Heap} {k : PKey} {rest : Path} {v : Ref} {h' : Hea
       simp only [alloc, Prod.mk.injEq, Except.ok.injEq] at hs
       obtain ⟨rfl, rfl⟩ := hs
       refine ⟨h1, c, .dict [((PKey.int i).toDKey, c)], he, rfl, rfl, by simp [Node.slotGet, dictGet], ?_⟩
+      intro k' _ hne x
+      simp [Node.slotGet, dictGet, Ne.symm hne]
+    · cases hs
+  | obj i =>
+    rw [defaultTree.eq_5 _ _ _ _ (by simp) (by simp) (by simp)] at hs
+    split at hs
+    · rename_i h1 c he
+      simp only [alloc, Prod.mk.injEq, Except.ok.injEq] at hs
+      obtain ⟨rfl, rfl⟩ := hs
+      refine ⟨h1, c, .dict [((PKey.obj i).toDKey, c)], he, rfl, rfl, by simp [Node.slotGet, dictGet], ?_⟩
       intro k' _ hne x
       simp [Node.slotGet, dictGet, Ne.symm hne]
     · cases hs
